@@ -6,8 +6,8 @@
     schedule / every map order; the `_order_dependent` theorems show that the quantifier is not
     vacuous (the rules before the repairs F11, F19, F16 and a parallel floating-point reduction
     fail it; so did the impurity sums of the decision tree before the repair F41). *)
-From Coq Require Import List NArith Bool Permutation Reals Floats.
-From LinfaVerif Require Import Common.Num Common.NdSum Common.B32 C09.Model C20.Model gen.C20_seeds C20.F32Add C20.Proofs.
+From Coq Require Import List NArith Bool Permutation Reals Floats SpecFloat.
+From LinfaVerif Require Import Common.Num Common.NdSum Common.B32 C09.Model C20.Model gen.C20_seeds C20.F32Add C20.Proofs C20.FloatOrder.
 Import ListNotations.
 
 (** ** Parallel loops *)
@@ -91,6 +91,22 @@ Proof.
   - right; split; [congruence | apply N.lt_le_incl; exact Hl].
   - inversion Heq; subst. right; split; [reflexivity | apply N.le_refl].
 Qed.
+
+(** the same in any arithmetic whose comparisons agree with the reals on the weights at hand ... *)
+Theorem modal_class_order_independent_embedded : forall F (o : NumOps F) (v : F -> R) (P : F -> Prop),
+  order_embeds o v P ->
+  forall e1 e2 : list (N * F), Forall (fun e => P (snd e)) e1 -> Permutation e1 e2 ->
+  modal_class o e1 = modal_class o e2.
+Proof. intros F o v P HE e1 e2 H1 Pm. exact (modal_class_perm_embedded o v P HE e1 e2 H1 Pm). Qed.
+
+(** ... in particular in binary32, the arithmetic of the code (`f32` class weights): for finite weights
+    (a decidable condition; every non-overflowing sum of finite sample weights) the predicted class
+    of a node does not depend on the map order.  NaN weights are excluded, and have to be
+    ([ex_modal_b32_nan] in C20/FloatOrder.v). *)
+Theorem modal_class_b32_order_independent : forall e1 e2 : list (N * spec_float),
+  forallb (fun e => b32_finite (snd e)) e1 = true -> Permutation e1 e2 ->
+  modal_class B32_ops e1 = modal_class B32_ops e2.
+Proof. exact modal_class_b32_perm. Qed.
 
 (** the rule before F11 depended on the order (two classes of equal weight) *)
 Theorem modal_class_old_order_dependent : exists e1 e2 : list (N * float),
